@@ -5,6 +5,7 @@
 package main
 
 import (
+	"fmt"
 	"bufio"
 	"bytes"
 	"encoding/json"
@@ -295,6 +296,54 @@ func sciondst(raw []byte) (netip.Addr, bool) {
 	return netip.Addr{}, false
 }
 
+// prevHopProbe re-processes datagram b with previous hops taken from the datagram's own destination fields and
+// returns a description of the first decision that differs from the one recorded in ev ("" if none).
+func prevHopProbe(srv *dispatcher.Server, b built, d dgram, ev vt.M) (diff string) {
+	defer func() {
+		if e := recover(); e != nil {
+			diff = "panic"
+		}
+	}()
+	hs := hosts4
+	if b.v6 {
+		hs = hosts6
+	}
+	var hostsAlt []netip.Addr
+	if sd, _ := sciondst(b.raw); sd.IsValid() {
+		hostsAlt = append(hostsAlt, sd)
+	}
+	hostsAlt = append(hostsAlt, hs["A"]) // services are registered at A
+	ports := []uint16{svcPort, 30041}
+	for _, p := range []int{d.Port, d.ID, d.Qp} {
+		if p > 0 && p < 65536 {
+			ports = append(ports, uint16(p))
+		}
+	}
+	for _, h := range hostsAlt {
+		for _, p := range ports {
+			alt := netip.AddrPortFrom(h, p)
+			out, nh, _ := srv.VerifProcessMsgNextHop(append([]byte(nil), b.raw...), b.outer, alt)
+			k, host, port := "drop", "-", 0
+			if nh.IsValid() {
+				host, port = hostID(nh.Addr(), b.v6), int(nh.Port())
+				k = "reply"
+				if bytes.Equal(out, b.raw) {
+					k = "fwd"
+				}
+			}
+			switch {
+			case k != ev["k"]:
+				return fmt.Sprintf("prev=%v: %s instead of %s", alt, k, ev["k"])
+			case k == "fwd" && (host != ev["host"] || port != ev["port"]):
+				return fmt.Sprintf("prev=%v: forwarded to %s:%d instead of %s:%d", alt, host, port, ev["host"], ev["port"])
+			case k == "reply" && nh != alt:
+				return fmt.Sprintf("prev=%v: answered to %v", alt, nh)
+			}
+		}
+	}
+	return ""
+}
+
 // mutate derives a structure-aware mutant from a valid datagram (other: a second datagram to splice with).
 func mutate(orig, other []byte, r *rand.Rand) ([]byte, string) {
 	raw := append([]byte(nil), orig...)
@@ -482,7 +531,7 @@ func main() {
 				svc[addr.Addr{IA: localIA, Host: addr.HostSVC(addr.SvcCS)}] = netip.AddrPortFrom(hs["A"], svcPort)
 			}
 			ev := vt.M{"ev": "dg", "d": d, "v6": 0, "k": "drop", "host": "-", "port": 0, "same": 0, "err": 0,
-				"panic": 0, "reply": noReply}
+				"panic": 0, "reply": noReply, "pv": 0}
 			if b.v6 {
 				ev["v6"] = 1
 			}
@@ -513,6 +562,17 @@ func main() {
 					ev["reply"] = describeReply(out, b, d)
 				}
 			}()
+			// previous-hop independence: what is done with a datagram is a function of the datagram (and the
+			// dispatcher flag) only; the previous hop is nothing but the address requests are answered to.
+			// The same bytes are processed again with the previous hop set to every host:port the datagram
+			// itself names as a destination (SCION destination host x UDP port / SCMP identifier / quoted
+			// port): a drop or forward must be repeated unchanged, a reply must go to that previous hop.
+			if ev["panic"] == 0 {
+				if alt := prevHopProbe(srv, b, d, ev); alt != "" {
+					ev["pv"] = 1
+					ev["pvd"] = alt
+				}
+			}
 			w.Emit(ev)
 		}
 		// byte-level mutants of the sequence's datagrams on the same server: the abstract class of a mutant is
